@@ -64,6 +64,75 @@ pub assume_specification<P: std::str::pattern::Pattern> [str::ends_with::<P>] (s
     where for<'a> <P as std::str::pattern::Pattern>::Searcher<'a>: std::str::pattern::ReverseSearcher<'a>
     ensures r == is_suffix(pattern_text::<P>(p), s@);
 
+// ---- characters
+pub open spec fn is_ascii_digit_c(c: char) -> bool { '0' <= c && c <= '9' }
+pub open spec fn is_ascii_alnum_c(c: char) -> bool {
+    ('0' <= c && c <= '9') || ('a' <= c && c <= 'z') || ('A' <= c && c <= 'Z')
+}
+pub open spec fn ascii_lower_c(c: char) -> char {
+    if 'A' <= c && c <= 'Z' { ((c as u8) + 32u8) as char } else { c }
+}
+
+// TRUSTED[char-is-ascii-alphanumeric]: exact definition from the std doc (0-9, a-z, A-Z).
+pub assume_specification [char::is_ascii_alphanumeric] (c: &char) -> (r: bool)
+    ensures r == is_ascii_alnum_c(*c);
+// TRUSTED[char-is-ascii-digit]: exact definition from the std doc (0-9).
+pub assume_specification [char::is_ascii_digit] (c: &char) -> (r: bool)
+    ensures r == is_ascii_digit_c(*c);
+
+/// Unicode `Alphabetic || Numeric` (char::is_alphanumeric): uninterpreted beyond ASCII
+pub uninterp spec fn unicode_alnum(c: char) -> bool;
+// TRUSTED[char-is-alphanumeric]: names char::is_alphanumeric; only its ASCII restriction is assumed (std doc).
+pub assume_specification [char::is_alphanumeric] (c: char) -> (r: bool)
+    ensures r == unicode_alnum(c), (c as u32) < 128 ==> r == is_ascii_alnum_c(c);
+
+// TRUSTED[str-to-ascii-lowercase]: maps A-Z to a-z and leaves every other character unchanged (std doc).
+pub assume_specification [str::to_ascii_lowercase] (s: &str) -> (r: String)
+    ensures r@ == s@.map_values(|c: char| ascii_lower_c(c));
+
+// TRUSTED[string-truncate]: String::truncate(n) keeps the first n bytes; no effect if n >= len; panics if n is inside a
+// code point (std doc) — stated as a precondition.
+pub assume_specification [std::string::String::truncate] (s: &mut String, n: usize)
+    requires n >= blen(old(s)@) || is_char_boundary(encode_utf8(old(s)@), n as int),
+    ensures
+        n >= blen(old(s)@) ==> final(s)@ == old(s)@,
+        n < blen(old(s)@) ==> encode_utf8(final(s)@) == encode_utf8(old(s)@).subrange(0, n as int);
+
+/// Unicode White_Space (char::is_whitespace): uninterpreted beyond the fact that ASCII letters and digits are not
+pub uninterp spec fn is_ws(c: char) -> bool;
+// TRUSTED[ws-not-alnum]: no ASCII letter or digit is whitespace.
+pub broadcast axiom fn axiom_ws_not_alnum(c: char)
+    requires is_ascii_alnum_c(c),
+    ensures !#[trigger] is_ws(c);
+pub open spec fn trim_ws_start(s: Seq<char>) -> Seq<char> decreases s.len() {
+    if s.len() > 0 && is_ws(s[0]) { trim_ws_start(s.skip(1)) } else { s }
+}
+pub open spec fn trim_ws_end(s: Seq<char>) -> Seq<char> decreases s.len() {
+    if s.len() > 0 && is_ws(s[s.len() - 1]) { trim_ws_end(s.drop_last()) } else { s }
+}
+// TRUSTED[str-trim]: str::trim removes leading and trailing Unicode whitespace (std doc).
+pub assume_specification [str::trim] (s: &str) -> (r: &str)
+    ensures r@ == trim_ws_end(trim_ws_start(s@));
+
+/// repeatedly remove the (non-empty) text `p` from the front / the back
+pub open spec fn strip_start(s: Seq<char>, p: Seq<char>) -> Seq<char> decreases s.len() {
+    if p.len() > 0 && is_prefix(p, s) { strip_start(s.skip(p.len() as int), p) } else { s }
+}
+pub open spec fn strip_end(s: Seq<char>, p: Seq<char>) -> Seq<char> decreases s.len() {
+    if p.len() > 0 && is_suffix(p, s) { strip_end(s.take(s.len() - p.len()), p) } else { s }
+}
+// TRUSTED[str-trim-start-matches]: for a non-empty string/char pattern, trim_start_matches removes all leading repetitions (std doc).
+#[verifier::allow(undeclared_external_trait)]
+pub assume_specification<'b, P: std::str::pattern::Pattern> [str::trim_start_matches::<P>] (s: &'b str, p: P) -> (r: &'b str)
+    requires pattern_text::<P>(p).len() > 0,
+    ensures r@ == strip_start(s@, pattern_text::<P>(p));
+// TRUSTED[str-trim-end-matches]: for a non-empty string/char pattern, trim_end_matches removes all trailing repetitions (std doc).
+#[verifier::allow(undeclared_external_trait)]
+pub assume_specification<'b, P: std::str::pattern::Pattern> [str::trim_end_matches::<P>] (s: &'b str, p: P) -> (r: &'b str)
+    where for<'a> <P as std::str::pattern::Pattern>::Searcher<'a>: std::str::pattern::ReverseSearcher<'a>
+    requires pattern_text::<P>(p).len() > 0,
+    ensures r@ == strip_end(s@, pattern_text::<P>(p));
+
 /// bytes of the result of indexing a String by `i` (only fixed for the index types axiomatised below)
 pub uninterp spec fn string_index_bytes<I>(s: Seq<char>, i: I) -> Seq<u8>;
 /// UTF-8 bytes of an index result (`str` for range indices)
@@ -156,7 +225,7 @@ pub broadcast group group_trusted_strings {
     axiom_string_eq_str_obeys, axiom_string_eq_str, axiom_string_eq_refstr_obeys, axiom_string_eq_refstr,
     axiom_pattern_text_str, axiom_pattern_text_string, axiom_pattern_text_char, axiom_str_len_fits,
     axiom_string_index_req_rangeto, axiom_out_bytes_str, axiom_string_index_rangeto,
-    axiom_str_index_rangefrom, axiom_str_index_rangeto,
+    axiom_str_index_rangefrom, axiom_str_index_rangeto, axiom_ws_not_alnum,
 }
 
 }
